@@ -212,6 +212,24 @@ func (cc *jobcontroller) killPods(jobInfo *apis.JobInfo, podRetainPhase state.Ph
 		calcPodStatus(pod, taskStatusCount)
 	}
 
+	// Count every pod that is not being killed (retained finished pods, pods
+	// outside the target) so that the written counters cover all existing pods.
+	for _, pods := range jobInfo.Pods {
+		for _, pod := range pods {
+			if _, killing := podsToKill[pod.Name]; killing {
+				continue
+			}
+			if pod.DeletionTimestamp != nil {
+				if target != nil {
+					terminating++
+				}
+				continue
+			}
+			classifyAndAddUpPodBaseOnPhase(pod, &pending, &running, &succeeded, &failed, &unknown)
+			calcPodStatus(pod, taskStatusCount)
+		}
+	}
+
 	if len(errs) != 0 {
 		klog.Errorf("failed to kill pods for job %s/%s, with err %+v", job.Namespace, job.Name, errs)
 		cc.recorder.Event(job, v1.EventTypeWarning, FailedDeletePodReason,
